@@ -107,6 +107,7 @@ def check_C01(tier, seed, res, replay=None):
     rng.shuffle(nt_cases)
     cli_arm.judge(res, rd, "incl", cli_arm.incl_events(nt_cases[:6000 if tier == "thorough" else 1200], rd), "TraceTA.tla")
     binding_inclup(res, rd, tier, [c for c in cases if nontrivial_pair(c)], rng)
+    binding_incldown(res, rd, tier, [c for c in cases if nontrivial_pair(c)], rng)
     # Layer 0: the oracle itself, cross-checked against the naive tree semantics (never depends on the code)
     shards = list(range(64)) if tier == "thorough" else [(seed * 7 + i * 4) % 64 for i in range(16)]
     m = vlib.tlc_sharded_check("TAcheck.tla", "TAcheck.cfg", 64, sorted(set(shards)))
@@ -180,6 +181,52 @@ def bind_model(res, rd, name, model, sample, module, cfg, keep=("A", "B", "mode"
                  "first_divergence": ({"case": v["fails"][0][0], "at_event": v["fails"][0][2]} if v["fails"] else None)}
     if v["fails"]:
         print("MODEL-BINDING-DIVERGED model=%s executions=%d diverged>=%d (evidence only, not a violation)" % (model, len(items), len(v["fails"])))
+
+
+def binding_incldown(res, rd, tier, pool, rng):
+    """semantic binding of the downward algorithms' caches (InclDown's invariants on real runs): every sub-call answer recorded
+    through the guarded hook is judged by TLC.  A wrong sub-answer is evidence only (MODEL-BINDING-DIVERGED) - but it is
+    AMPLIFIED: the sub-problem (A rooted at p, B rooted at P) is run as an ordinary inclusion case through all 8 selections,
+    where a wrong verdict is an API-level violation."""
+    rng.shuffle(pool)
+    sample = []
+    pool = [c for c in pool if any(r[1] for r in c["A"]["rules"]) and any(r[1] for r in c["B"]["rules"])]
+    for c in pool[:60000 if tier == "thorough" else 12000]:
+        for k in rng.sample(range(2, 8), 2):
+            sample.append({"id": c["id"], "op": "incldowntrace", "selidx": k, "A": c["A"], "B": c["B"], "syms": c.get("syms", [])})
+    cf = os.path.join(rd, "binddn.cases.ndjson")
+    vlib.write_ndjson(cf, sample)
+    nexec = nans = 0
+    files = []
+    for k, sh in enumerate(vlib.drive(cf, os.path.join(rd, "binddn.ev"))):
+        evs = [ev for ev in vlib.read_ndjson(sh) if ev.get("outcome") == "ok" and "SA" in ev.get("res", {}) and ev["res"]["answers"]]
+        nexec += len(evs)
+        nans += sum(len(ev["res"]["answers"]) for ev in evs)
+        f = os.path.join(rd, "binddn.judge.%d.ndjson" % k)
+        vlib.write_ndjson(f, evs)
+        files.append(f)
+    mb = res.extra.setdefault("model_binding", {})
+    if not nexec:
+        mb["InclDown-answers"] = "no sub-call answers recorded (hook absent?)"
+        return
+    v = vlib.tlc_validate("TraceTA.tla", files)
+    res.add_validation(v)
+    mb["InclDown-answers"] = {"executions": nexec, "sub_answers_judged": nans, "executions_with_unsound_answer": len(v["fails"]),
+                              "first": ({"sel": v["fails"][0][3]["res"]["sel"], "A": v["fails"][0][3]["A"], "B": v["fails"][0][3]["B"]} if v["fails"] else None)}
+    if not v["fails"]:
+        return
+    print("MODEL-BINDING-DIVERGED model=InclDown-answers executions=%d with-unsound-sub-answer=%d (evidence only; sub-problems re-run as inclusion cases)"
+          % (nexec, len(v["fails"])))
+    # amplification: every sub-problem of the diverging executions as an ordinary inclusion case (all 8 selections, judged by C01's contract)
+    amp = []
+    for (_, _, _, ev) in v["fails"][:40]:
+        sa, sb = ev["res"]["SA"], ev["res"]["SB"]
+        name = lambda r: "s%d_%d" % (r[0], len(r[1]))
+        for n, a in enumerate(ev["res"]["answers"][:60]):
+            A = {"fin": [a[0]], "rules": [[name(r), r[1], r[2]] for r in sa["rules"]]}
+            B = {"fin": list(a[1]), "rules": [[name(r), r[1], r[2]] for r in sb["rules"]]}
+            amp.append({"id": ["amp", ev.get("id"), n], "op": "incl", "A": A, "B": B, "syms": gen.syms_of(A, B), "src": "sub-problem of a downward run with an unsound sub-answer"})
+    run_events(res, rd, "amp", amp)
 
 
 def agreement_arm(res, rd, tier, seed):
